@@ -3,7 +3,7 @@
    the correspondence run, not verified); schema conformance of all fields is an oracle. *)
 From Coq Require Import Lia Permutation Sorted.
 From RM Require Import Gen.C15Fmt.
-From RM Require Import C15.Model C15.Schema C15.Widths C15.Utf8 C15.Pretty C15.Proofs C15.Proofs2 C15.Proofs3 C15.Proofs4 C15.Proofs5 C15.Proofs6 C15.Proofs7 C15.Scalar C15.Proofs8 C15.Proofs9 C15.Regs C15.Proofs10.
+From RM Require Import C15.Model C15.Schema C15.Widths C15.Utf8 C15.Pretty C15.Proofs C15.Proofs2 C15.Proofs3 C15.Proofs4 C15.Proofs5 C15.Proofs6 C15.Proofs7 C15.Scalar C15.Proofs8 C15.Proofs9 C15.Regs C15.Proofs10 C15.Consistent C15.Proofs11.
 Open Scope Z_scope.
 
 (* Escaping is total and correct: every JSON value — arbitrary nesting, arbitrary integers,
@@ -503,6 +503,53 @@ Proof.
 Qed.
 Print Assumptions c15_register_tables.
 
+(* SELF-CONSISTENCY AS A CHECKER.  [consistent] judges a JSON value alone: thread_count = |threads|; per thread frame_count = |frames|, every
+   frame's "frame" is its position and missing_symbols <=> function is null; the crashing_thread copy is present exactly when
+   crash_info.crashing_thread names a thread that has frames, and then it is that thread with threads_index = the index appended and "registers"
+   inserted into frame 0 and nowhere else, every other member and every other frame equal; mac_crash_info.num_records = |records|.  The report of
+   every well-formed state passes it, in both build profiles; the driver runs the same checker on the REAL print_json output of every case. *)
+Theorem c15_consistent : forall p s, wf_state s = true -> exists j, json_of_state p s = Ret j /\ consistent j = true.
+Proof. intros p s H. exists (report_obj s). split; [exact (report_pure p s H)|exact (report_consistent s H)]. Qed.
+Print Assumptions c15_consistent.
+
+Definition ex_fr (i : Z) (fn : json) (ms : bool) : json := JObj [(k_frame, JNum i); (k_function, fn); (k_missing_symbols, JBool ms)].
+Definition ex_th (n : Z) (fs : list json) : json := JObj [(k_frame_count, JNum n); (k_frames, JArr fs); (k_thread_id, JNum 7)].
+Definition ex_doc (n : Z) (ts : list json) (ci : json) (extra : list (list Z * json)) : json :=
+  JObj ((k_crash_info, JObj [(k_crashing_thread, ci)]) :: extra ++ [(k_thread_count, JNum n); (k_threads, JArr ts)]).
+Definition ex_fr_regs (f : json) : json := match f with JObj l => JObj (l ++ [(k_registers, JObj [])]) | x => x end.
+Definition ex_copy (i : Z) (n : Z) (fs : list json) (id : Z) : json :=
+  JObj [(k_frame_count, JNum n); (k_frames, JArr fs); (k_thread_id, JNum id); (k_threads_index, JNum i)].
+
+(* [consistent] is not vacuous *)
+Theorem c15_consistent_rejects :
+  let f0 := ex_fr 0 (JStr [102]) false in let f1 := ex_fr 1 JNull true in
+  let t := ex_th 2 [f0; f1] in let t0 := ex_th 0 [] in
+  (* accepted: no requesting thread; a requesting thread without frames; a proper copy *)
+  consistent (ex_doc 2 [t; t0] JNull []) = true /\
+  consistent (ex_doc 2 [t; t0] (JNum 1) []) = true /\
+  consistent (ex_doc 2 [t; t0] (JNum 0) [(k_crashing_thread, ex_copy 0 2 [ex_fr_regs f0; f1] 7)]) = true /\
+  (* rejected: wrong thread_count / frame_count / frame number / missing_symbols *)
+  consistent (ex_doc 3 [t; t0] JNull []) = false /\
+  consistent (ex_doc 1 [ex_th 1 [f0; f1]] JNull []) = false /\
+  consistent (ex_doc 1 [ex_th 2 [f0; ex_fr 2 JNull true]] JNull []) = false /\
+  consistent (ex_doc 1 [ex_th 2 [f0; ex_fr 1 JNull false]] JNull []) = false /\
+  (* rejected: no copy although thread 0 has frames; a copy without a requesting thread; a copy for a thread without frames *)
+  consistent (ex_doc 2 [t; t0] (JNum 0) []) = false /\
+  consistent (ex_doc 2 [t; t0] JNull [(k_crashing_thread, ex_copy 0 2 [ex_fr_regs f0; f1] 7)]) = false /\
+  consistent (ex_doc 2 [t; t0] (JNum 1) [(k_crashing_thread, ex_copy 1 0 [] 7)]) = false /\
+  (* rejected: wrong threads_index; another thread_id; no registers; registers in frame 1 as well; a frame changed; index out of range *)
+  consistent (ex_doc 2 [t; t0] (JNum 0) [(k_crashing_thread, ex_copy 1 2 [ex_fr_regs f0; f1] 7)]) = false /\
+  consistent (ex_doc 2 [t; t0] (JNum 0) [(k_crashing_thread, ex_copy 0 2 [ex_fr_regs f0; f1] 8)]) = false /\
+  consistent (ex_doc 2 [t; t0] (JNum 0) [(k_crashing_thread, ex_copy 0 2 [f0; f1] 7)]) = false /\
+  consistent (ex_doc 2 [t; t0] (JNum 0) [(k_crashing_thread, ex_copy 0 2 [ex_fr_regs f0; ex_fr_regs f1] 7)]) = false /\
+  consistent (ex_doc 2 [t; t0] (JNum 0) [(k_crashing_thread, ex_copy 0 2 [ex_fr_regs (ex_fr 0 (JStr [103]) false); f1] 7)]) = false /\
+  consistent (ex_doc 2 [t; t0] (JNum 2) []) = false /\ consistent (ex_doc 2 [t; t0] (JNum (-1)) []) = false /\
+  (* mac_crash_info.num_records *)
+  consistent (ex_doc 0 [] JNull [(k_mac_crash_info, JObj [(k_num_records, JNum 2); (k_records, JArr [JObj []])])]) = false /\
+  consistent (ex_doc 0 [] JNull [(k_mac_crash_info, JObj [(k_num_records, JNum 1); (k_records, JArr [JObj []])])]) = true.
+Proof. vm_compute. repeat split; reflexivity. Qed.
+Print Assumptions c15_consistent_rejects.
+
 (* ---- non-vacuity ---- *)
 Example c15_nonvacuous_roundtrip :
   let v := JObj [([97; 34; 92; 10; 1; 128512], JArr [JNum (-42); JNum 0; JNull; JBool true; JStr [31; 127; 8]; JObj []; JArr []])] in
@@ -550,11 +597,11 @@ Definition ex_state : state :=
      s_handles := Some [ {| h_handle := Some 18446744073709551615; h_type := Some [70]; h_object := None |} ];
      s_soft := Some (JArr [JObj [([97; 100; 100; 114; 101; 115; 115], JStr [63]); ([110], JArr [JNum (-1); JNull])]; JObj []]) |}.
 Example c15_nonvacuous_state : state_ok ex_state /\ wf_state ex_state = true /\ state_scalar ex_state = true /\ regs_named_ok (s_registers ex_state) = true /\
-  exists j, json_of_state Debug ex_state = Ret j /\ parse (serialise j) = Some j /\ conforms DOC_SCHEMA j = true /\
+  exists j, json_of_state Debug ex_state = Ret j /\ parse (serialise j) = Some j /\ conforms DOC_SCHEMA j = true /\ consistent j = true /\
             jget k_thread_count j = Some (JNum 2) /\ (1400 < length (serialise j))%nat.
 Proof.
   assert (W : wf_state ex_state = true) by (vm_compute; reflexivity).
   split; [apply wf_state_ok; exact W|]. split; [exact W|]. split; [vm_compute; reflexivity|]. split; [reflexivity|].
-  eexists. split; [vm_compute; reflexivity|]. split; [apply serialise_parse|]. split; [vm_compute; reflexivity|].
+  eexists. split; [vm_compute; reflexivity|]. split; [apply serialise_parse|]. split; [vm_compute; reflexivity|]. split; [vm_compute; reflexivity|].
   split; [reflexivity|vm_compute; lia].
 Qed.
